@@ -922,6 +922,14 @@ func (r *RIB) rmPending(id uint64) {
 	delete(r.pendingEntries, id)
 }
 
+// DropPending discards all operations that are pending within the RIB because their
+// references cannot yet be resolved. No result is subsequently generated for them.
+func (r *RIB) DropPending() {
+	r.pendMu.Lock()
+	defer r.pendMu.Unlock()
+	r.pendingEntries = map[uint64]*pendingEntry{}
+}
+
 // rmPendingOp removes op from the RIB's pendingEntries if it is the operation
 // that is pending under its ID.
 func (r *RIB) rmPendingOp(op *spb.AFTOperation) {
